@@ -55,6 +55,14 @@ Theorem head_prefix_free : forall t t' n n' r r',
 Proof. exact CborHeadInj.typed_uint_prefix_free. Qed.
 Print Assumptions head_prefix_free.
 
+(* ... and so are whole byte / text strings (head + content) *)
+Theorem string_prefix_free : forall t t' bs bs' r r',
+  major_const t -> major_const t' -> lenN bs < two64 -> lenN bs' < two64 ->
+  enc_bytes_of t bs ++ r = enc_bytes_of t' bs' ++ r' ->
+  t = t' /\ bs = bs' /\ r = r'.
+Proof. exact CborHeadInj.enc_bytes_of_prefix_free. Qed.
+Print Assumptions string_prefix_free.
+
 (* encodeTypedUint IS the spec's shortest-form head encoder *)
 Theorem typed_uint_is_shortest_head : forall t n,
   major_const t -> typed_uint t n = senc_head (t / 32) n.
